@@ -77,7 +77,9 @@ CF.update({'pow1.5': lambda z: z ** 1.5, 'pow-0.5': lambda z: z ** -0.5, 'ipow2'
            'ipow-1': lambda z: 1 / z, 'ipow-3': lambda z: 1 / (z * z * z)})
 
 
-def bfun(name, Z, B):
+def bfun(name, Z, B, method_call=False):
+    if method_call and hasattr(Z, name) and not name.startswith(('pow', 'ipow')):
+        return getattr(Z, name)()          # z.log1p() rather than numpy.log1p(z): numpy hands element COPIES to the method
     if name.startswith('pow') and name != 'powz':
         return Z ** float(name[3:])
     if name == 'powz':
@@ -114,7 +116,7 @@ def fun_cases(B, recs, rep, stats):
         for shape in (None, (3,)):
             try:
                 with np.errstate(all='ignore'):
-                    got = comps(bfun(name, mk(B, v, shape), B))
+                    got = comps(bfun(name, mk(B, v, shape), B, method_call=shape is not None))
             except Exception as ex:
                 rep.violation('fun-raises:' + name, dict(fn=name, x0=x0, e=e, delta=d), 'Bicomplex %s raised %r at %s' % (name, ex, v))
                 break
@@ -181,7 +183,7 @@ def hol_cases(B, progs, dirs, tier, seed, rep, stats):
                     break
                 stats['hol'] += 1
                 g = got.reshape(4, -1)
-                s0 = max(abs(t) for t in jf)
+                s0 = max(max(abs(t) for t in jf), 1.0)      # absolute floor: intermediates of a program are O(1) even when it cancels to 0 (log(exp(x)) - x)
                 tol = 1e4 * EPS * max(S, s0) * (1 + abs(a0)) + s0 * (delta * enorm * 8 / rho) ** len(jf) if rho != float('inf') else 1e4 * EPS * max(S, s0) * (1 + abs(a0))
                 bad = np.abs(g - want[:, None]).max()
                 stats['max_hol_ratio'] = max(stats['max_hol_ratio'], bad / tol)
@@ -235,7 +237,7 @@ def obj_histories(B, tier, seed, rep, stats):
                     Z.z2 = np.full(3, v[2] + 1j * v[3])
                 else:
                     with np.errstate(all='ignore'):
-                        got = comps(bfun(e['fn'], Z, B)).reshape(4, -1)
+                        got = comps(bfun(e['fn'], Z, B, method_call=(step % 2 == 0))).reshape(4, -1)
                     stats['obj_applies'] += 1
                     for k in range(3):
                         want, mag = ext(e['fn'], OBJ_VALS[e['want'][k]])
